@@ -47,7 +47,7 @@ def run(pid, variants, per, once=(), mcfirst=True):
         else:
             rep.count("rejected")
             rep.bad(v["key"], "%s palette %s: %s" % (f["variant"], c["pal"], v["detail"]),
-                    {"variant": f["variant"], "args": f["args"], "file_hex": f["data"][:64].hex(), "verdict": v})
+                    {"variant": f["variant"], "tool": f["tool"], "args": f["args"], "data_b64": __import__("base64").b64encode(f["data"]).decode(), "verdict": v})
     rep.count("palette_slot_code_pairs_covered", len(pairs))
     return rep, files, cases, vds, wd
 
